@@ -117,6 +117,8 @@ def embInit (cc pi lcss parity : Nat) : Except IErr EmbObj := do
     if parity ≤ 0 then
       bitsToNat (sl (qr1676.gen (natToBits 4 cc ++ natToBits 1 piv ++ natToBits 2 lv)) 7 16)
     else parity
+  -- `as_bits()` (called for the verdict) does `int2ba(parity, length=9)`: OverflowError from 2^9 on
+  if par ≥ 512 then throw .overflowError
   let o : EmbObj := ⟨cc, piv, lv, par, false⟩
   pure { o with ok := qr1676.check o.enc }
 
